@@ -349,3 +349,138 @@ def c06(tier):
 
 
 REGISTRY["C06"] = c06
+
+
+# ---------------------------------------------------------------------------------------------
+# C09: string and character literals are stored byte-exact
+# ---------------------------------------------------------------------------------------------
+def render_lit(c):
+    raw = "".join(c["raw"])
+    k = c["ctx"]
+    pro = "#define MAC 7\n#define Q 5\n"
+    if k == "init":
+        return pro + 'const char *v0 = "%s";\nvoid main() { }\n' % raw
+    if k == "ptrtable":
+        return pro + 'const char *t0[] = {"%s", "zz"};\nvoid main() { }\n' % raw
+    if k == "concat":
+        return pro + 'const char *v0 = "%s" "Zz";\nvoid main() { }\n' % raw
+    if k == "callarg":
+        return pro + 'void pr(char *s) { }\nvoid main() { pr("%s"); }\n' % raw
+    if k == "asm":
+        return pro + 'void main() { asm("%s", 3); }\n' % raw
+    if k == "twoline":
+        return pro + 'const char *v0 = "%s"; const char *w0 = "%s";\nvoid main() { }\n' % (raw, raw)
+    if k == "aftercode":
+        return pro + 'char q0; const char *v0 = "%s"; // trailing "comment" /* x */\nvoid main() { }\n' % raw
+    if k == "inif":
+        return pro + '#if 1\nconst char *v0 = "%s";\n#endif\nvoid main() { }\n' % raw
+    if k == "charconst":
+        return pro + "const char c0 = '%s';\nvoid main() { }\n" % raw
+    raise ValueError(k)
+
+
+def arr_of(vars_, name):
+    for v in vars_:
+        if v["name"] == name and v["def"] and "array" in v["def"]:
+            return [e.get("int") for e in v["def"]["array"]]
+    return None
+
+
+def observe_lit(c, o):
+    """-> (observed bytes list or None, note)"""
+    k = c["ctx"]
+    vs = o["vars"]
+    if k in ("init", "concat", "aftercode", "inif"):
+        return arr_of(vs, "v0")
+    if k == "twoline":
+        a, b = arr_of(vs, "v0"), arr_of(vs, "w0")
+        return a if a == b else ["v0/w0 differ", a, b]
+    if k == "ptrtable":
+        for v in vs:
+            if v["name"] == "t0" and v["def"] and "ptrs" in v["def"]:
+                return arr_of(vs, v["def"]["ptrs"][0][0])
+        return None
+    if k == "callarg":
+        lits = [v for v in vs if v["name"].startswith("cctmp") and v["def"] and "array" in v["def"]]
+        return [e.get("int") for e in lits[0]["def"]["array"]] if len(lits) == 1 else ["literal count", len(lits)]
+    if k == "asm":
+        for f in o["funcs"]:
+            if f["name"] == "main":
+                t = [l["text"] for l in f["lines"] if l["k"] == "a"]
+                return [ord(ch) for ch in t[0]] + [0] if len(t) == 1 else ["asm lines", len(t)]
+        return None
+    if k == "charconst":
+        for v in vs:
+            if v["name"] == "c0" and v["def"] and "value" in v["def"]:
+                return [v["def"]["value"].get("int")]
+        return None
+
+
+def c09(tier):
+    t0 = time.time()
+    pid = "C09"
+    verdict = common.Verdict(pid)
+    d = common.workdir("gen_c09")
+    cfg = os.path.join(d, "GenLit.cfg")
+    maxlen = 2 if tier == "quick" else 3
+    open(cfg, "w").write("SPECIFICATION Spec\nCONSTANTS MaxLen = %d\n Alphabet <- FullAlphabet\nINVARIANT Emit\nCHECK_DEADLOCK FALSE\n" % maxlen)
+    res = common.run_tlc("MCGenLit", cfg=cfg, name="gen_c09", tags={"CASE"}, workers=8, heap="8g", timeout=1500)
+    common.require_ok(res, "GenLit")
+    cases = [o for (_, o) in res.lines]
+    cases.sort(key=lambda o: json.dumps(o, sort_keys=True))
+    total = len(cases)
+    if tier == "thorough" and len(cases) > 120000:
+        rnd = random.Random(common.seed())
+        short = [c for c in cases if len(c["body"]) <= 2]
+        cases = short + rnd.sample([c for c in cases if len(c["body"]) > 2], 120000 - len(short))
+    hc = []
+    for i, c in enumerate(cases):
+        c["_src"] = render_lit(c)
+        hc.append(dict(id=i, src=c["_src"], variants=[dict(name="O1", args=["-O1"])]))
+    obs = common.run_harness("compile", hc, "c09")
+    kf = {}
+    for fd in verdict.findings:
+        for k in fd.get("cases", []):
+            kf[k] = fd["id"]
+    nbad = 0
+    accepted = rejected = 0
+    for c, ob in zip(cases, obs):
+        o = ob[0] if ob else {"status": "missing"}
+        want = list(c["bytes"])
+        if c["ctx"] == "concat":
+            want = want[:-1] + [90, 122, 0]
+        problem = None
+        if o.get("status") == "err":
+            rejected += 1       # the property speaks of literals the compiler accepts
+            continue
+        if o.get("status") != "ok":
+            problem = "compiler %s: %s" % (o.get("status"), o.get("panic", ""))
+        else:
+            accepted += 1
+            got = observe_lit(c, o)
+            if got != want:
+                problem = "stored %s, expected %s" % (json.dumps(got), json.dumps(want))
+        if problem is None:
+            continue
+        # a known finding is identified by the symbol that triggers it (and, where it matters, the context)
+        keys = ["sym:%s" % s for s in c["body"]] + ["sym:%s/%s" % (s, c["ctx"]) for s in c["body"]] + ["ctx:%s" % c["ctx"]]
+        hit = [kf[k] for k in keys if k in kf]
+        if hit:
+            verdict.attribute(hit[0])
+            continue
+        nbad += 1
+        verdict.violation('%s literal "%s": %s' % (c["ctx"], "".join(c["raw"]), problem[:150]),
+                          dict(property=pid, body=c["body"], raw="".join(c["raw"]), context=c["ctx"], expected_bytes=want, problem=problem, source=c["_src"], finding_keys=keys))
+    if accepted < 100:
+        raise common.ToolError("vacuous: %d literals accepted" % accepted)
+    cov = dict(states=res.distinct, transitions=res.generated, traces_validated_against_impl=len(cases),
+               samples=[dict(body=c["body"], context=c["ctx"], source=c["_src"], expected_bytes=c["bytes"]) for c in cases[50:53]],
+               literals_generated=total, literals_replayed=len(cases), accepted=accepted, rejected_by_compiler=rejected, disagreements=nbad,
+               attributed_to_known_findings=verdict.known, max_body_symbols=maxlen, exhaustive=(len(cases) == total),
+               explanation="GenLit.tla enumerates literal bodies over Lexer.tla's symbol alphabet (letters, digits, every escape, escaped quote and backslash, "
+                           "comment markers, #, @, a macro name, ...) in nine contexts; the bytes stored by the real compiler must equal Lexer!LiteralBytes.")
+    common.write_evidence(pid, tier, "model_checking", cov, time.time() - t0, len(verdict.violations), ["literals the compiler refuses are not judged (C16 judges refusals)"])
+    return verdict.finish(max_print=40)
+
+
+REGISTRY["C09"] = c09
